@@ -55,7 +55,12 @@ def run(ctx):
     lines = [O.render(m, ops) for m, e, ops in allb]
     ctx.sample(lines[0]); ctx.sample(lines[-1])
     dbg = ["0", "3", "6"]
-    tfs = O.replay(ctx, "hook", lines, "c17", env_of_shard=lambda i: {"ORC_DEBUG": dbg[i % 3]})
+    # every second process also compiles and frees other programs (the whole opcode table in turn, six
+    # one-instruction programs before each compile op of the behaviour): "whatever was compiled before"
+    # includes programs that are not the one under test, and state a back end keeps between compiles
+    # (static buffers, caches) only shows when some other program has left something in it
+    tfs = O.replay(ctx, "hook", lines, "c17",
+                   env_of_shard=lambda i: {"ORC_DEBUG": dbg[i % 3], "H_POLLUTE": "6" if i % 2 else "0"})
     # one validation over everything: the image ghost then spans processes and debug levels
     allf = os.path.join(ctx.work, "c17_all.ndjson")
     with open(allf, "w") as f:
@@ -68,6 +73,7 @@ def run(ctx):
     report(ctx, fails, "c17", "C17")
     ctx.cov["replayed_behaviours"] = len(lines)
     ctx.cov["orc_debug_levels"] = dbg
+    ctx.cov["foreign_compiles"] = "odd shards: 6 one-opcode programs (sys opcode table in turn) compiled and freed before every compile op"
     ctx.cov["targets"] = list(ALLT)
     ctx.cov["exhaustive"] = False
     ctx.cov["rule"] = ("behaviours = TLC edge cover of the 1-program OrcSystem graph over all registered targets "
